@@ -19,37 +19,47 @@ package satisfaction_levels
 
 //@ func (*IncreasingCoefficientManager).Validate
 //@   property C14 C20 C12 C13 C01 C09
+//@   indexsafe
 //@   refines satisfaction_levels.CoefficientManager.Validate with validFor=incValid
 //@   panics_iff [range] params.Coefficient <= 0.0 || params.Coefficient >= 1.0 || params.MinValue < 0.0 || params.MinValue > 1.0 || params.MaxValue < 0.0 || params.MaxValue > 1.0
 //@ func (*IncreasingCoefficientManager).InitialValue
 //@   property C14 C20 C12 C13 C01 C09
+//@   indexsafe
 //@   ensures [initial] result == params.MinValue
 //@ func (*IncreasingCoefficientManager).HasNext
 //@   property C14 C20 C12 C13 C01 C09
+//@   indexsafe
 //@   ensures [hasnext] result <==> params.currentValue < params.MaxValue
 
 //@ func (*DecreasingCoefficientManager).Validate
 //@   property C14 C20 C12 C13 C01 C09
+//@   indexsafe
 //@   refines satisfaction_levels.CoefficientManager.Validate with validFor=decValid
 //@   panics_iff [range] params.Coefficient <= 0.0 || params.Coefficient >= 1.0 || params.MinValue <= 0.0 || params.MinValue > 1.0 || params.MaxValue <= 0.0 || params.MaxValue > 1.0
 //@ func (*DecreasingCoefficientManager).InitialValue
 //@   property C14 C20 C12 C13 C01 C09
+//@   indexsafe
 //@   ensures [initial] result == params.MaxValue
 //@ func (*DecreasingCoefficientManager).HasNext
 //@   property C14 C20 C12 C13 C01 C09
+//@   indexsafe
 //@   ensures [hasnext] result <==> params.currentValue > params.MinValue
 
 //@ func var:IdealIncreasingMulCoefficientSatisfaction#1
 //@   property C14 C20 C12 C13
+//@   indexsafe
 //@   ensures [formula] result == incMul(current, coefficient)
 //@ func var:IdealAdditiveCoefficientSatisfaction#1
 //@   property C14 C20 C12 C13
+//@   indexsafe
 //@   ensures [formula] result == incAdd(current, coefficient)
 //@ func var:IdealDecreasingMulCoefficientSatisfaction#1
 //@   property C14 C20 C12 C13
+//@   indexsafe
 //@   ensures [formula] result == decMul(current, coefficient)
 //@ func var:IdealSubtrCoefficientSatisfaction#1
 //@   property C14 C20 C12 C13
+//@   indexsafe
 //@   ensures [formula] result == decSub(current, coefficient)
 
 //@ lemma [C14] inc_mul_strictly_increasing: forall r real, c real, mx real
@@ -80,6 +90,7 @@ package satisfaction_levels
 
 //@ func (*IdealCoefficientSatisfactionLevels).Next
 //@   property C14 C12 C13 C01 C09 C20
+//@   indexsafe
 //@   requires len(s.criteriaValuesRanges) >= len(s.criteria)
 //@   requires forall i int, j int :: 0 <= i && i < j && j < len(s.criteria) ==> s.criteria[i].Id != s.criteria[j].Id
 //@   assigns s
@@ -98,15 +109,18 @@ package satisfaction_levels
 
 //@ func (*ThresholdSatisfactionLevels).HasNext
 //@   property C12 C13 C14 C07 C01 C09 C20
+//@   indexsafe
 //@   ensures [hasnext] result <==> t.currentIndex + 1 < len(t.Thresholds)
 //@ func (*ThresholdSatisfactionLevels).Next
 //@   property C12 C13 C14 C07 C01 C09 C20
+//@   indexsafe
 //@   requires 0 <= t.currentIndex + 1 && t.currentIndex + 1 < len(t.Thresholds)
 //@   assigns t
 //@   ensures [advance] t.currentIndex == old(t.currentIndex) + 1 && t.Thresholds == old(t.Thresholds)
 //@   ensures [level] result == old(t.Thresholds[t.currentIndex + 1])
 //@ func (*ThresholdSatisfactionLevels).Initialize
 //@   property C12 C13 C14 C20 C07 C01 C09
+//@   indexsafe
 //@   assigns t
 //@   panics_iff [missing_threshold] exists i int, c int :: 0 <= i && i < len(t.Thresholds) && 0 <= c && c < len(dmp.Criteria) && !(dmp.Criteria[c].Id in t.Thresholds[i])
 //@   ensures [reset] t.currentIndex == -1 && t.Thresholds == old(t.Thresholds)
@@ -126,6 +140,7 @@ package satisfaction_levels
 
 //@ func (*IdealCoefficientSatisfactionLevels).Initialize
 //@   property C14 C12 C13 C01 C09 C20
+//@   indexsafe
 //@   assigns s
 //@   ensures [criteria] s.criteria == dmp.Criteria && len(s.criteriaValuesRanges) == len(dmp.Criteria)
 //@   ensures [ranges_declared] forall k int :: 0 <= k && k < len(dmp.Criteria) && dmp.Criteria[k].ValuesRange != nil ==> s.criteriaValuesRanges[k] == *dmp.Criteria[k].ValuesRange
@@ -145,10 +160,12 @@ package satisfaction_levels
 // ---- no state shared between requests (C09): every request decodes its level parameters into a new object
 //@ func (*ThresholdSatisfactionLevelsSource).BlankParams
 //@   property C09 C14 C12 C13 C07 C01 C15 C18 C19 C20
+//@   indexsafe
 //@   nopanic
 //@   ensures [new_object_each_time] typeis(result, *ThresholdSatisfactionLevels) && fresh(result.(*ThresholdSatisfactionLevels))
 //@ func (*IdealCoefficientSatisfactionLevelsSource).BlankParams
 //@   property C09 C14 C12 C13 C01 C07 C15 C18 C19 C20
+//@   indexsafe
 //@   nopanic
 //@   ensures [new_object_each_time] typeis(result, *IdealCoefficientSatisfactionLevels) && fresh(result.(*IdealCoefficientSatisfactionLevels))
 //@             && result.(*IdealCoefficientSatisfactionLevels).manager == s.coefficientManager
@@ -156,12 +173,14 @@ package satisfaction_levels
 // ---- the explicit threshold list under criteria-changing biases (C07, C14, C18, C15)
 //@ func fetchParams
 //@   property C14 C07 C12 C13 C15 C18 C01 C09 C19 C20
+//@   indexsafe
 //@   panics_iff [wrong_type] !typeis(params, *ThresholdSatisfactionLevels)
 //@   ensures [the_list] result == params.(*ThresholdSatisfactionLevels)
 
 // a new criterion gets, per level, a fraction in [0,1) of the reference criterion's threshold of that level ...
 //@ func assignNewThresholds
 //@   property C14 C18 C12 C13 C07 C01 C09 C19 C20
+//@   indexsafe
 //@   fnparam generator ensures 0.0 <= result && result < 1.0
 //@   ensures [fraction_of_the_reference_threshold_per_level] fresh(result) && len(result) == len(params.Thresholds) && forall k int :: 0 <= k && k < len(params.Thresholds) ==>
 //@             model.fractionOf(result[k], params.Thresholds[k][referenceCriterion.Id])
@@ -171,6 +190,7 @@ package satisfaction_levels
 // ... sorted in the direction of the series (ascending for aspect elimination, descending for satisfaction) ...
 //@ func sortThresholds
 //@   property C14 C18 C12 C13 C07 C01 C09 C19 C20
+//@   indexsafe
 //@   assigns thresholds
 //@   ensures [in_series_direction] forall i int, j int :: 0 <= i && i < j && j < len(thresholds) ==> (ascending ? thresholds[i] <= thresholds[j] : thresholds[i] >= thresholds[j])
 //@   ensures [same_values] forall k int :: 0 <= k && k < len(thresholds) ==> exists j int :: 0 <= j && j < len(thresholds) && thresholds[k] == old(thresholds[j])
@@ -178,6 +198,7 @@ package satisfaction_levels
 // ... and attached level by level under the new criterion's id
 //@ func mapThresholdsToEntries
 //@   property C14 C18 C12 C13 C07 C01 C09 C19 C20
+//@   indexsafe
 //@   ensures [one_single_key_map_per_level] fresh(result) && len(result) == len(thresholdsValues) && forall k int :: 0 <= k && k < len(thresholdsValues) ==>
 //@             criterion.Id in result[k] && result[k][criterion.Id] == thresholdsValues[k] && forall q string :: q in result[k] ==> q == criterion.Id
 //@   loop 1 invariant [ctx] fresh(thresholds) && len(thresholds) == len(thresholdsValues)
@@ -185,6 +206,7 @@ package satisfaction_levels
 
 //@ func (*ThresholdSatisfactionLevels).preserveLeftThresholds
 //@   property C14 C15 C07 C12 C13 C01 C09 C20
+//@   indexsafe
 //@   ensures [every_level_restricted_to_the_left_criteria] fresh(result) && len(result) == len(t.Thresholds) && forall i int, k int :: 0 <= i && i < len(t.Thresholds) && 0 <= k && k < len(*leftCriteria) ==>
 //@             (*leftCriteria)[k].Id in result[i] && result[i][(*leftCriteria)[k].Id] == t.Thresholds[i][(*leftCriteria)[k].Id]
 //@   loop 1 invariant [ctx] fresh(thresholds) && len(thresholds) == len(t.Thresholds)
@@ -201,16 +223,19 @@ package satisfaction_levels
 
 //@ func (*ThresholdSatisfactionLevelsSource).OnCriteriaRemoved
 //@   property C14 C15 C07 C12 C13 C01 C09 C20
+//@   indexsafe
 //@   ensures [position_kept] typeis(result, *ThresholdSatisfactionLevels) && fresh(result.(*ThresholdSatisfactionLevels))
 //@             && result.(*ThresholdSatisfactionLevels).currentIndex == params.(*ThresholdSatisfactionLevels).currentIndex
 //@             && len(result.(*ThresholdSatisfactionLevels).Thresholds) == len(params.(*ThresholdSatisfactionLevels).Thresholds)
 //@ func (*ThresholdSatisfactionLevelsSource).Merge
 //@   property C14 C18 C07 C12 C13 C01 C09 C19 C20
+//@   indexsafe
 //@   ensures [position_kept] typeis(result, *ThresholdSatisfactionLevels) && fresh(result.(*ThresholdSatisfactionLevels))
 //@             && result.(*ThresholdSatisfactionLevels).currentIndex == params.(*ThresholdSatisfactionLevels).currentIndex
 //@             && len(result.(*ThresholdSatisfactionLevels).Thresholds) == len(params.(*ThresholdSatisfactionLevels).Thresholds)
 //@ func (*ThresholdSatisfactionLevelsSource).OnCriterionAdded
 //@   property C14 C18 C07 C12 C13 C01 C09 C19 C20
+//@   indexsafe
 //@   fnparam generator ensures 0.0 <= result && result < 1.0
 //@   ensures [one_threshold_per_level_in_series_direction] typeis(result, ThresholdsUpdate) && len(result.(ThresholdsUpdate).Thresholds) == len(params.(*ThresholdSatisfactionLevels).Thresholds)
 //@             && (forall k int :: 0 <= k && k < len(result.(ThresholdsUpdate).Thresholds) ==> criterion.Id in result.(ThresholdsUpdate).Thresholds[k])
@@ -228,6 +253,7 @@ package satisfaction_levels
 //@   ensures madeBy(result, self)
 //@ func Find
 //@   property C14 C20 C12 C13 C01 C09
+//@   indexsafe
 //@   ensures [first_source_with_that_name] len(function) > 0 && exists k int :: 0 <= k && k < len(functions) && sourceName(functions[k]) == function && madeBy(result, functions[k])
 //@             && forall j int :: 0 <= j && j < k ==> sourceName(functions[j]) != function
 //@   loop 1 invariant [none_so_far] len(function) > 0 && forall j int :: 0 <= j && j < iter ==> sourceName(functions[j]) != function
@@ -250,6 +276,7 @@ package satisfaction_levels
 // ---- registered names (what a request must say to select this object; what error messages list)
 //@ func (*ThresholdSatisfactionLevelsSource).Identifier
 //@   property C07 C14 C20 C01 C03 C04 C05 C06 C08 C09 C11 C12 C13 C15 C16 C17 C18 C19
+//@   indexsafe
 //@   nopanic
 //@   ensures [name] result == "thresholds"
 
@@ -257,34 +284,42 @@ package satisfaction_levels
 // the manager applies the update rule it was configured with (the four rules are the closures proved above)
 //@ func (*IncreasingCoefficientManager).UpdateValue
 //@   property C14 C12 C20 C01 C09 C13
+//@   indexsafe
 //@   fnparam .updateCoefficient pure
 //@   ensures [configured_rule] result == apply(i.updateCoefficient, current, coefficient)
 //@ func (*DecreasingCoefficientManager).UpdateValue
 //@   property C14 C13 C20 C01 C09 C12
+//@   indexsafe
 //@   fnparam .updateCoefficient pure
 //@   ensures [configured_rule] result == apply(d.updateCoefficient, current, coefficient)
 // a generated series has no per-criterion content: adding, removing and merging criteria leave its parameters as they are
 //@ func (*IdealCoefficientSatisfactionLevelsSource).OnCriterionAdded
 //@   property C14 C07 C18 C01 C09 C19 C20
+//@   indexsafe
 //@   nopanic
 //@   ensures [nothing_to_add] isnil(result)
 //@ func (*IdealCoefficientSatisfactionLevelsSource).OnCriteriaRemoved
 //@   property C14 C07 C15 C01 C09 C20
+//@   indexsafe
 //@   nopanic
 //@   ensures [unchanged] result == params
 //@ func (*IdealCoefficientSatisfactionLevelsSource).Merge
 //@   property C14 C07 C18 C01 C09 C19 C20
+//@   indexsafe
 //@   nopanic
 //@   ensures [unchanged] result == params
 
 // ---- the update listener of the level source a request names (used by the heuristics' bias listeners)
 //@ func (*SatisfactionLevelsUpdateListeners).Fetch
 //@   property C07 C12 C13 C20 C15 C18 C01 C09 C19
+//@   indexsafe
 //@   panics_iff [unknown_source] !(listenerName in sl.Listeners)
 //@   ensures [registered_under_that_name] result != nil && fresh(result) && *result == sl.Listeners[listenerName]
 //@ func (*SatisfactionLevelsUpdateListeners).Get
 //@   property C07 C12 C13 C20 C15 C18 C01 C09 C19
+//@   indexsafe
 //@   ensures [listener_of_the_named_source] listenerName in sl.Listeners && result0 == sl.Listeners[listenerName]
 //@ func (*IdealCoefficientSatisfactionLevels).HasNext
 //@   property C14 C12 C13 C01 C09 C20
+//@   indexsafe
 //@   ensures [the_managers_answer] true
